@@ -336,3 +336,11 @@ Definition table_ok (tbl : list (bytes * Z)) (reserved : list bytes) : bool :=
   forallb (fun kv => ((0 <=? snd kv) && (snd kv <=? 127))%Z || existsb (bytes_eqb (fst kv)) reserved) tbl &&
   forallb (fun kv => opt_Z_eqb (dict_get tbl (fst kv)) (Some (snd kv)) &&
                      opt_bytes_eqb (dict_get_id tbl (snd kv)) (Some (fst kv))) tbl.
+
+(* ------------------------------------------------------------------------------------------------ *)
+(* used to state that a hypothesis of the round trip is needed: encoding fails, or decoding the encoding does not
+   give the entries back *)
+Definition rt_fails (items : list entry) : Prop :=
+  cm_encode items = None \/ exists bs, cm_encode items = Some bs /\ cm_decode bs <> Some items.
+
+Definition user_65536 : bytes := repeat x61 (N.to_nat 65536).
